@@ -257,6 +257,25 @@ func c12(c *Ctx) {
 			return
 		}
 		r.Check("doLookup:in-loop-over-batch", reachableFrom(sel.Block())[sel.Block()], sel.Pos(), "the answer is sent inside the loop over the batch")
+		// the only way out of the answer loop other than answering is the cancellation of the dispatcher's own
+		// context: the receive cases wait on Done() of doLookup's context parameter, not of a context derived
+		// inside (whose deadline would end the loop with sources unanswered)
+		okDone, nRecv := true, 0
+		for _, st := range sel.States {
+			if st.Send != nil {
+				continue
+			}
+			nRecv++
+			dc, isCall := st.Chan.(*ssa.Call)
+			if !isCall || !dc.Call.IsInvoke() || dc.Call.Method.Name() != "Done" {
+				okDone = false
+				continue
+			}
+			if _, isParam := ptrOrigin(dc.Call.Value).(*ssa.Parameter); !isParam {
+				okDone = false
+			}
+		}
+		r.Check("doLookup:only-cancellation-ends-the-answers", okDone && nRecv <= 1, sel.Pos(), "the answer loop is left early only on Done() of the context doLookup was given")
 		okSend := false
 		for _, st := range sel.States {
 			if st.Send != nil && strings.HasSuffix(pathOf(st.Chan), ".infoSink") {
@@ -806,6 +825,7 @@ func c12(c *Ctx) {
 	}
 
 	c.Rule("C12.R5", "refresh: idle entries are scheduled for eviction (idle tested before TTL), other expired entries are re-queried, evictions are applied", 3, func(r *Rule) {
+		pendingPopRule(r, w, P, "CachedCloudProvider", "toLookupIPs")
 		if dr == nil || run == nil {
 			r.Unresolved("doRefresh / Run")
 			return
@@ -842,6 +862,31 @@ func c12(c *Ctx) {
 			}
 		})
 		r.Check("Run:refresh-ticker", okTick, run.Pos(), "refresh ticker period is CacheRefreshPeriod")
+		// every tick refreshes: the call of doRefresh stands directly in the tick's select case (idle eviction and
+		// re-lookup must not depend on the state of the pending lists)
+		nRef := 0
+		for _, cl := range callsIn(run) {
+			if staticCallee(cl) != dr {
+				continue
+			}
+			nRef++
+			extra := ""
+			for _, f := range factsAt(cl.Block()) {
+				isSel := false
+				for _, v := range []ssa.Value{f.X, f.V} {
+					if ex, ok := v.(*ssa.Extract); ok {
+						if _, isS := ex.Tuple.(*ssa.Select); isS && ex.Index == 0 {
+							isSel = true
+						}
+					}
+				}
+				if !isSel {
+					extra = "an additional condition guards the refresh"
+				}
+			}
+			r.Check("Run:refresh-on-every-tick", extra == "", cl.Pos(), "doRefresh runs on every tick of the refresh ticker "+extra)
+		}
+		r.Check("Run:refresh-site", nRef == 1, run.Pos(), fmt.Sprintf("%d doRefresh calls in Run", nRef))
 		r.Check("Run:queued-lookups-are-submitted", okSend, run.Pos(), "sources queued by the refresh are sent to the lookup dispatcher")
 	})
 }
